@@ -21,6 +21,8 @@
     densead.fact <V> <n> <kind> <nVars> <c> <pos> = <R | err>
         factories: zero one cx vx (createConstantZero/One(x), createConstant(x,c), createVariable(x,c,pos)),
         c1 v2 (createConstant(c), createVariable(c,pos)), cn vn (… with nVars), blank; err = throws
+    densead.pred <n> <A> <B> <tol> = <bits>
+        MathToolbox<Evaluation>::isSame(A, B, tol), isfinite(A), isnan(A) as a 0/1 string
       -> "ok" when every slot of the *generated* definitions evaluated at Float is within <tol>
          ulp of R (tol = 0: bit-exact), otherwise "diff <model result>".
 -/
@@ -35,6 +37,16 @@ def floatFns : Fns Float :=
     sin := Float.sin, cos := Float.cos, tan := Float.tan, asin := Float.asin, acos := Float.acos,
     atan := Float.atan, sinh := Float.sinh, cosh := Float.cosh, asinh := Float.asinh,
     acosh := Float.acosh, atan2 := Float.atan2, pow := Float.pow }
+
+/-- `MathToolbox<double>`: `std::isnan`, `std::isfinite`, and `isSame(a, b, tol)` =
+`|a-b| < tol || |a-b| / std::max(1.0, |a+b|) < tol` (MathToolbox.hpp) -/
+def floatPreds : Preds Float :=
+  { isnan := Float.isNaN, isfinite := Float.isFinite,
+    isSame := fun a b tol =>
+      let d := a - b
+      let s := Float.abs (a + b)
+      let den := if 1.0 < s then s else 1.0
+      decide (Float.abs d < tol) || decide (Float.abs d / den < tol) }
 
 def hexToNat (cs : List Char) : Option Nat :=
   cs.foldlM (fun acc c => (hexVal c).map fun d => acc * 16 + d) 0
@@ -218,6 +230,16 @@ def handle (op : String) (args : List String) : String :=
         | some w => if bitsEq got w then "ok" else "diff " ++ showVec got
         | none => "diff " ++ showVec got
     | _, _, _, _ => "bad-op"
+  | "densead.pred", [n, a, b, tol, "=", want] =>
+    match n.toNat? with
+    | some n =>
+      match parseVec n a, parseVec n b, parseF tol with
+      | some a, some b, some tol =>
+        let got := bit (Gen.M.isSame (n := n) floatPreds (toFn a) (toFn b) tol) ++
+          bit (Gen.M.isfinite (n := n) floatPreds (toFn a)) ++ bit (Gen.M.isnan (n := n) floatPreds (toFn a))
+        if got = want then "ok" else "diff " ++ got
+      | _, _, _ => "bad-op"
+    | none => "bad-op"
   | "densead.untranslatable", [] => " ".intercalate Gen.notTranslatable
   | _, _ => "bad-op"
 
